@@ -80,6 +80,8 @@ MUTANTS = [
     ("C05", "R6", BM, '    let parts = node.attribute("parts");', '    let parts = node.attribute("part");', "body parts attribute misspelt"),
     ("C08", "R1", CPLX, "    import_extension_fields(&mut node, doc, &mut base_fields)?;\n\n    for n in node.children().filter(Node::is_element) {\n        if n.tag_name().name() == \"sequence\" {\n            import_sequence_node_fields(&mut node, doc, &mut base_fields)?;\n        }\n    }",
      "    for n in node.children().filter(Node::is_element) {\n        if n.tag_name().name() == \"sequence\" {\n            import_sequence_node_fields(&mut node, doc, &mut base_fields)?;\n        }\n    }\n    import_extension_fields(&mut node, doc, &mut base_fields)?;", "own before base"),
+    ("C09", "R3", "zeep-lib/src/model/field.rs", "    if namespace.is_some_and(|ns| doc.find_namespace_by_abbreviation(ns).is_some()) {\n        return user_type(node_type, namespace, doc);\n    }\n", "", "builtin table consulted without looking at the prefix"),
+    ("C09", "R3", "zeep-lib/src/model/field.rs", "    if namespace.is_some_and(|ns| doc.find_namespace_by_abbreviation(ns).is_some()) {\n        return user_type(node_type, namespace, doc);", "    if namespace.is_some_and(|ns| doc.find_namespace_by_abbreviation(ns).is_none()) {\n        return user_type(node_type, namespace, doc);", "builtin table consulted exactly when the prefix is bound"),
     ("C09", "R3", DOC, "node.rust_type.xml_name().is_some_and(|n| n == xml_name) && node.in_namespace.as_deref() == namespace", "node.rust_type.xml_name().is_some_and(|n| n == xml_name)", "namespace dropped from lookup"),
     ("C10", "R1", DOC, "existing_namespaces.iter().any(|ns| ns.abbreviation == use_abbreviation)", "existing_namespaces.iter().any(|ns| ns.namespace == use_abbreviation)", "uniqueness test on wrong field"),
     ("C10", "R2", DOC, "let abbreviation = make_abbreviated_namespace(namespace, &self.namespaces);", "let abbreviation = make_abbreviated_namespace(namespace, &self.target_namespaces);", "wrong registry"),
